@@ -433,9 +433,9 @@ class _Run:
             if kids:
                 base.focus_position = live.focus_position
         elif n.kind == "ListBox":
-            if len(live.body) != len(kids):
+            if (len(live.body.items) if is_minimal(live) else len(live.body)) != len(kids):
                 return None
-            base = urwid.ListBox(urwid.SimpleFocusListWalker(kids))
+            base = urwid.ListBox(minimal_walker_class()(kids) if is_minimal(live) else urwid.SimpleFocusListWalker(kids))
             if kids:
                 base.focus_position = live.focus_position
         elif n.kind == "Frame":
